@@ -384,6 +384,13 @@ func c14Build(scenario int, mon *c14Mon, round int) (jobs []c14Job, finish []fun
 		jobs = append(jobs, charJob("shared *CharRecipe (longer prefix of the same RequireSets array)", func() spg.CharRecipe { return *r3 }, r3))
 		r2 := spg.NewCharRecipe(20 + round%7)
 		jobs = append(jobs, charJob("shared *CharRecipe (defaults)", func() spg.CharRecipe { return *r2 }, r2))
+		// value copies of one recipe that came from the constructor, each with requirements of its own
+		base := spg.NewCharRecipe(10 + round%3)
+		base.Require = spg.Digits
+		ca, cb := *base, *base
+		cb.Require = spg.Symbols | spg.Uppers
+		jobs = append(jobs, charJob("copy A of a NewCharRecipe recipe", func() spg.CharRecipe { return ca }, nil))
+		jobs = append(jobs, charJob("copy B of a NewCharRecipe recipe", func() spg.CharRecipe { return cb }, nil))
 	case 1: // a CharRecipe variable used by value from many goroutines (captured by reference)
 		var r spg.CharRecipe = spg.CharRecipe{Length: 8 + round%6, Allow: spg.Digits | spg.Lowers, RequireSets: []string{"abc"}}
 		jobs = append(jobs, charJob("CharRecipe variable", func() spg.CharRecipe { return r }, nil))
@@ -454,6 +461,34 @@ func c14Build(scenario int, mon *c14Mon, round int) (jobs []c14Job, finish []fun
 	return jobs, finish
 }
 
+// c14Disturb: what a long-running process has been through before the concurrent phase: generations that
+// ran out of attempts, and generations aborted by a failing random source (panic recovered by the caller).
+func c14Disturb(round int) {
+	save := rand.Reader
+	defer func() { rand.Reader = save }()
+	func() {
+		defer knobs(1+round%2, 1)()
+		rec := spg.CharRecipe{Length: 3, Allow: spg.Lowers, Require: spg.Digits | spg.Symbols}
+		wl, _ := spg.NewWordList([]string{"alpha", "beta", "gamma"})
+		wr := spg.NewWLRecipe(3, wl)
+		wr.SeparatorFunc = spg.NewSFFunction(rec)
+		for i := 0; i < 12; i++ {
+			runGen(rec, nil) // most of these exhaust their attempts
+			runGen(wr, nil)
+		}
+	}()
+	for k := 1; k <= 6; k++ {
+		rec := spg.CharRecipe{Length: 6, Allow: spg.Letters, Require: spg.Digits}
+		runGen(rec, &tape.Tape{Script: []uint32{3, 1, 4, 1, 5, 9, 2, 6}, AutoExtend: true, FaultAt: k, FaultBytes: k % 4})
+		wl, _ := spg.NewWordList([]string{"alpha", "beta", "gamma"})
+		wr := spg.NewWLRecipe(4, wl)
+		wr.Capitalize = spg.CSRandom
+		wr.SeparatorFunc = spg.SFDigits1
+		runGen(wr, &tape.Tape{Script: []uint32{1, 0, 1, 1, 2, 5, 0, 7, 1, 3}, AutoExtend: true, FaultAt: 2 * k, FaultBytes: 0})
+	}
+	rand.Reader = &yieldReader{}
+}
+
 func c14Case(c *Ctx) {
 	scenario := c.Case % c14Scenarios
 	G := []int{4, 16, 64}[(c.Case/c14Scenarios)%3]
@@ -471,6 +506,7 @@ func c14Case(c *Ctx) {
 		rounds, iters = 2, 1200/G
 	}
 	for round := 0; round < rounds; round++ {
+		c14Disturb(round)
 		jobs, finish := c14Build(scenario, mon, round+c.Case*rounds)
 		var wg sync.WaitGroup
 		start := make(chan struct{})
